@@ -212,7 +212,7 @@ def run_hals(X, rank, k, seed, opts):
     rec = Rec()
     init = o.pop("_init", None)
     if init is not None:
-        o["init"] = rand_cp_init(X.shape, rank, np.random.RandomState(seed), nonneg=True)
+        o["init"] = rand_cp_init(X.shape, rank, np.random.RandomState(seed), nonneg=True, weights=(init == "weighted"))
     out, errs = non_negative_parafac_hals(np.array(X), rank, n_iter_max=k, tol=o.pop("_tol", 1e-300), return_errors=True, random_state=seed, **o)
     rec.final = _cp_it(out)
     rec.errors = [float(e) for e in errs]
@@ -222,6 +222,8 @@ def run_hals(X, rank, k, seed, opts):
 def run_constrained(X, rank, k, seed, opts):
     from tensorly.decomposition import constrained_parafac
     opts = dict(opts)
+    if "_n_iter_max_inner" in opts:
+        opts["n_iter_max_inner"] = opts.pop("_n_iter_max_inner")
     out, errs = constrained_parafac(np.array(X), rank, n_iter_max=k, tol_outer=opts.pop("_tol", 0), return_errors=True, random_state=seed,
                                     init="random", **opts)
     rec = Rec()
@@ -383,6 +385,9 @@ def configs(tier):
         ("parafac_norm_cb", "tensorly.decomposition.parafac", run_parafac, dict(init="random", normalize_factors=True, _cb=True), G, o234, K[-1:]),
         ("parafac_winit", "tensorly.decomposition.parafac", run_parafac, dict(_init="weighted"), G, o234, K),
         ("parafac_l2", "tensorly.decomposition.parafac", run_parafac, dict(init="random", l2_reg=0.1), G, [3], K),
+        ("parafac_l2_norm", "tensorly.decomposition.parafac", run_parafac, dict(init="random", l2_reg=0.3, normalize_factors=True), G, [2, 4], K),
+        ("parafac_l2_mask_fixed", "tensorly.decomposition.parafac", run_parafac, dict(_init="weighted", l2_reg=0.2, _mask=True, fixed_modes=[0], _cb=True), G, [3], K),
+        ("parafac_sparse_l2_norm", "tensorly.decomposition.parafac", run_parafac, dict(init="random", sparsity=0.2, l2_reg=0.1, normalize_factors=True), G, [3], K),
         ("parafac_ls", "tensorly.decomposition.parafac", run_parafac, dict(init="random", linesearch=True), G, [3, 4], KL),
         ("parafac_ls_cb", "tensorly.decomposition.parafac", run_parafac, dict(init="random", linesearch=True, _cb=True), G, [2, 3], KL[-1:]),
         ("parafac_ls_norm", "tensorly.decomposition.parafac", run_parafac, dict(init="random", linesearch=True, normalize_factors=True), G, [3], KL),
@@ -411,9 +416,18 @@ def configs(tier):
         ("hals_fixed_lbo", "tensorly.decomposition.non_negative_parafac_hals", run_hals, dict(_init="plain", fixed_modes="last_but_one"), NN, o234, K),
         ("hals_fixed_last", "tensorly.decomposition.non_negative_parafac_hals", run_hals, dict(_init="plain", fixed_modes="last"), NN, [3, 4], K),
         ("hals_fixed_last_norm", "tensorly.decomposition.non_negative_parafac_hals", run_hals, dict(_init="plain", fixed_modes="last", normalize_factors=True), NN, [3], K),
+        # options that feed into (or sit next to) the error expression, each with a NON-ZERO value
+        ("hals_sparse", "tensorly.decomposition.non_negative_parafac_hals", run_hals, dict(init="random", sparsity_coefficients=[0.2, 0.1, 0.3, 0.1]), NN, [3, 4], K),
+        ("hals_sparse_norm_exact", "tensorly.decomposition.non_negative_parafac_hals", run_hals, dict(init="random", sparsity_coefficients=[0.3, 0.2, 0.1, 0.1], exact=True, normalize_factors=True), NN, [3], K),
+        ("hals_sparse_fixed_last", "tensorly.decomposition.non_negative_parafac_hals", run_hals, dict(_init="plain", sparsity_coefficients=[0.2, 0.2, 0.2, 0.2], fixed_modes="last", normalize_factors=True), NN, [3], K),
+        ("hals_winit_fixed_last", "tensorly.decomposition.non_negative_parafac_hals", run_hals, dict(_init="weighted", fixed_modes="last"), NN, [3], K),
         ("hals_nn_some", "tensorly.decomposition.non_negative_parafac_hals", run_hals, dict(init="random", nn_modes={0}), NN, [3], K),
         ("constrained_nn", "tensorly.decomposition.constrained_parafac", run_constrained, dict(non_negative=True), NN, o234, K),
         ("constrained_l2", "tensorly.decomposition.constrained_parafac", run_constrained, dict(l2_square_reg=0.05), G, [3], K),
+        ("constrained_l1", "tensorly.decomposition.constrained_parafac", run_constrained, dict(l1_reg=0.1), G, [3], K),
+        ("constrained_mixed", "tensorly.decomposition.constrained_parafac", run_constrained, dict(l2_reg=0.2, _n_iter_max_inner=3), G, [3, 4], K),
+        ("constrained_smooth", "tensorly.decomposition.constrained_parafac", run_constrained, dict(smoothness=0.1), G, [3], K),
+        ("constrained_normalize", "tensorly.decomposition.constrained_parafac", run_constrained, dict(normalize=True), NN, [3], K),
         ("constrained_fixed", "tensorly.decomposition.constrained_parafac", run_constrained, dict(non_negative=True, fixed_modes=[0]), NN, [3], K),
         ("constrained_tol", "tensorly.decomposition.constrained_parafac", run_constrained, dict(non_negative=True, _tol=1e-3), NN, [3], KT),
         ("tucker_svd", "tensorly.decomposition.tucker", run_tucker, dict(init="svd"), G, o234, K),
@@ -429,6 +443,13 @@ def configs(tier):
         ("nn_tucker_hals_as", "tensorly.decomposition.non_negative_tucker_hals", run_nn_tucker_hals, dict(init="svd", algorithm="active_set"), NN, [3], K),
         ("nn_tucker_tol", "tensorly.decomposition.non_negative_tucker", run_nn_tucker, dict(init="random", _tol=1e-3, normalize_factors=True), NN, [3], KT),
         ("nn_tucker_hals_tol", "tensorly.decomposition.non_negative_tucker_hals", run_nn_tucker_hals, dict(init="svd", _tol=1e-3), NN, [3], KT),
+        ("nn_tucker_hals_sparse", "tensorly.decomposition.non_negative_tucker_hals", run_nn_tucker_hals, dict(init="svd", sparsity_coefficients=[0.3, 0.2, 0.4, 0.2]), NN, [2, 3], K),
+        ("nn_tucker_hals_sparse_all", "tensorly.decomposition.non_negative_tucker_hals", run_nn_tucker_hals,
+         dict(init="svd", sparsity_coefficients=[0.02, 0.03, 0.02], core_sparsity_coefficient=0.02, exact=True), NN, [3], K),
+        ("nn_tucker_hals_core_sparse_norm", "tensorly.decomposition.non_negative_tucker_hals", run_nn_tucker_hals,
+         dict(init="svd", core_sparsity_coefficient=0.05, normalize_factors=True), NN, [3], K),
+        ("nn_tucker_hals_sparse_as", "tensorly.decomposition.non_negative_tucker_hals", run_nn_tucker_hals,
+         dict(init="svd", sparsity_coefficients=[0.1, 0.3, 0.2], algorithm="active_set"), NN, [3], K),
         ("parafac2", "tensorly.decomposition.parafac2", run_parafac2, dict(), G, [3], K),
         ("parafac2_ls", "tensorly.decomposition.parafac2", run_parafac2, dict(), G, [3], KL),
         ("parafac2_ls_norm", "tensorly.decomposition.parafac2", run_parafac2, dict(normalize_factors=True), G, [3], KL[:1]),
@@ -465,6 +486,8 @@ def concretise(opts, X, rank, rs):
         m = (rs.uniform(size=X.shape) < 0.8).astype(np.float64)
         m.flat[0] = 1.0; m.flat[-1] = 0.0
         o["mask"] = m
+    if isinstance(o.get("sparsity_coefficients"), list):
+        o["sparsity_coefficients"] = list(o["sparsity_coefficients"][:n])
     if o.get("fixed_modes") == "last_but_one":
         o["fixed_modes"] = [n - 2]
     elif o.get("fixed_modes") == "last":
@@ -781,7 +804,7 @@ def gen_runs(tier, rng):
     for (name, entry, runner, opts, kinds, orders, ks) in configs(tier):
         for order in orders:
             shp = shapes[order]
-            if "fixed_last" in name or name in ("nn_parafac_fixed", "constrained_fixed"):
+            if "fixed_last" in name or name in ("nn_parafac_fixed", "constrained_fixed", "parafac_l2_mask_fixed"):
                 shp = SHAPES_EQ[order] + ((SHAPES_EQ_T[order] + shp) if tier != "quick" else [])
             if tier == "quick":
                 # one shape per (config, order), data kind rotating with the seed
@@ -918,6 +941,8 @@ def run(chk):
                 chk.hist("skipped", f"{name}: {str(rec)[:60]}")
                 continue
             recs[k] = rec
+            if series(rec) and not rec.squared_unnormalised and series(rec)[-1] > 0.999:
+                chk.hist("degenerate_iterate(error ~ 1)", name)
             nf = check_run(col, name, entry, X, kind, rank, k, seed, o, rec, light=light and not (rec.ls and rec.ls[-1] is False))
             if name.startswith("parafac2") and "_tol" not in o and rec.errors is not None:
                 # PARAFAC2 loop skeleton, observable projection: number of recorded values (one per iteration, line search included)
